@@ -42,15 +42,60 @@ def roles_source(expr, creds_param):
     return None, None
 
 
+def elem_source(t, expr):
+    """The iterable a loop-element symbol was drawn from, else None."""
+    if isinstance(expr, ast.Name) and expr.id in t.en.defs:
+        d = t.en.defs[expr.id]
+        if isinstance(d, tuple) and d and d[0] == 'elem':
+            return d[1]
+    return None
+
+
+def empty_default(expr):
+    return expr is None or (isinstance(expr, (ast.Tuple, ast.List, ast.Set))
+                            and not expr.elts) or (
+        isinstance(expr, ast.Dict) and not expr.keys) or (
+        isinstance(expr, ast.Call) and U(expr.func) in (
+            'tuple', 'list', 'set', 'frozenset', 'dict') and not expr.args) \
+        or is_const(expr, '', None)
+
+
+def roles_of(t, expr, creds_p):
+    """(key, how) when expr denotes the role list of the credentials."""
+    e = t.expand(expr)
+    # list(x) / tuple(x) / set(x) / sorted(x) keep the elements
+    while isinstance(e, ast.Call) and U(e.func) in (
+            'list', 'tuple', 'set', 'sorted', 'frozenset', 'iter') and len(
+                e.args) == 1:
+        e = e.args[0]
+    if isinstance(e, ast.BoolOp) and isinstance(e.op, ast.Or) and len(
+            e.values) == 2 and empty_default(e.values[1]):
+        e = e.values[0]                      # creds.get('roles') or ()
+    key, how = roles_source(e, creds_p)
+    if key is not None and how == 'get':
+        dflt = e.args[1] if len(e.args) > 1 else None
+        if not empty_default(dflt):
+            return None, None
+    return key, how
+
+
 def check(ctx):
     prog = ctx.prog
     ctx.use(CHECKS)
     ctx.explain('C04: every path of the __call__ of the class registered '
-                "for kind 'role' is extracted; the substitution, the "
-                'membership test with symmetric case normalisation and the '
-                'constant-False remainder are checked on each.')
+                "for kind 'role' is extracted with its helpers inlined, "
+                'any()/all(), `in <comprehension>` and conditional '
+                'expressions unfolded into the loops and branches they '
+                'abbreviate, and results reduced to their truth.  Each path '
+                'condition is classified (presence of the role list, scan '
+                'of the role list, case-normalised equality of a held role '
+                'with `self.match % target`, substitution failure); '
+                'accepting paths need a positive match and nothing else, '
+                'denying paths need a legitimate reason.')
     ctx.assume('str.lower/casefold is a case-insensitive equality on the '
                'quantified alphabet (one-to-one case mappings)')
+    ctx.assume('loops are explored for zero and one element; a denial after '
+               'a non-matching element must come after the scan completed')
     cq = prog.registered_checks().get('role')
     if cq is None:
         raise AnalysisError("no class registered for kind 'role'")
@@ -62,148 +107,170 @@ def check(ctx):
         raise AnalysisError('role check __call__ has too few parameters')
     target_p, creds_p = prm[1], prm[2]
     from ..dte import inline_self_methods
-    helpers = {g.qual for q in prog.mro(cq) if q in prog.classes
-               for g in prog.classes[q].methods.values()
-               if not g.name.startswith('__')}
-    t = Table(prog, f, inline=inline_self_methods(prog, only=helpers)
-              if helpers else None)
+    t = Table(prog, f, inline=inline_self_methods(
+        prog, exclude={CHECKS + '._check'}), split_returns=True,
+        max_depth=4)
     W = ctx.where(f.module, f.node)
     n_member = n_false = n_subst = 0
+    reported = set()
+
+    def once(rule, ok, where, construct, detail, **kw):
+        k = (rule, construct, detail)
+        if not ok and k in reported:
+            return
+        reported.add(k)
+        ctx.ob(rule, ok, where, f.qual, construct, detail, **kw)
+
+    def is_x(expr):
+        """norm, True when expr is norm(self.match % target)"""
+        e = t.expand(expr)
+        n, src = norm_of(e)
+        return n, substituted_match(t, src, target_p)
+
     for p in t.paths:
         where = '%s:%d' % (W.split(':')[0], p.outcome.line)
         if p.outcome.kind == 'raise':
-            ctx.ob('C04.ELSE-FALSE', False, where, f.qual, p.outcome.text(),
-                   'the role check can raise instead of deciding')
+            once('C04.ELSE-FALSE', False, where, p.outcome.text(),
+                 'the role check can raise instead of deciding')
             continue
         if p.outcome.kind == 'end' or p.outcome.expr is None:
-            ctx.ob('C04.ELSE-FALSE', False, where, f.qual, 'falls off the '
-                   'end', 'the role check can return None on path %s'
-                   % p.cond_text())
+            once('C04.ELSE-FALSE', False, where, 'falls off the '
+                 'end', 'the role check can return None on path %s'
+                 % p.cond_text())
             continue
-        e = t.expand(p.outcome.expr)
-        exc = [c for c in p.conds if c.kind == 'exc']
-        if exc:
-            # the handler of the substitution
-            n_subst += 1
-            ok = is_const(e, False) and 'KeyError' in str(
-                exc[0].expr.value)
-            ctx.ob('C04.SUBST', ok, where, f.qual,
-                   'missing target key -> ' + p.outcome.text(),
-                   'a %(key)s placeholder missing from the target denies'
-                   if ok else 'a missing target key does not deny '
-                   '(handler %s returns %s)' % (exc[0].expr.value, U(e)))
-            continue
-        if is_const(e):
-            n_false += 1
-            ok = e.value is False
-            # which presence condition guards it
-            ctx.ob('C04.ELSE-FALSE', ok, where, f.qual,
-                   '%s -> %s' % (p.cond_text(), U(e)),
-                   'denies' if ok else
-                   'the role check returns the constant %r (path: %s)' % (
-                       e.value, p.cond_text()))
-            continue
-        # non-constant result: must be the positive, normalised membership
-        n_member += 1
-        ok = False
-        detail = 'result is not a membership test of X among the roles'
-        key = None
-        if isinstance(e, ast.Compare) and len(e.ops) == 1 and isinstance(
-                e.ops[0], ast.In):
-            ln, lsrc = norm_of(e.left)
-            right = e.comparators[0]
-            rn, rkey, rhow = None, None, None
-            if isinstance(right, (ast.ListComp, ast.SetComp,
-                                  ast.GeneratorExp)) and len(
-                                      right.generators) == 1 and not \
-                    right.generators[0].ifs:
-                g = right.generators[0]
-                rn, rsrc = norm_of(right.elt)
-                if U(rsrc) != U(g.target):
-                    rn = 'other'
-                rkey, rhow = roles_source(g.iter, creds_p)
-            elif isinstance(right, ast.Call) and U(right.func) in (
-                    'map', 'set', 'list'):
-                inner = right
-                while isinstance(inner, ast.Call) and U(inner.func) in (
-                        'set', 'list') and inner.args:
-                    inner = inner.args[0]
-                if isinstance(inner, ast.Call) and U(inner.func) == 'map' \
-                        and len(inner.args) == 2 and U(inner.args[0]) in (
-                            'str.lower', 'str.casefold'):
-                    rn = U(inner.args[0])[4:]
-                    rkey, rhow = roles_source(inner.args[1], creds_p)
-            if not substituted_match(t, lsrc, target_p):
-                detail = 'the tested value is not `self.match % target`'
-            elif rkey is None:
-                detail = 'the collection searched is not the credentials\' ' \
-                         'role list'
-            elif ln is None or rn is None:
-                detail = 'case is not normalised on %s side' % (
-                    'the left' if ln is None else 'the roles')
-            elif ln != rn:
-                detail = 'different normalisers on the two sides (%s vs %s)' \
-                         % (ln, rn)
-            else:
-                ok = True
-                key = (rkey, rhow)
-                detail = 'positive membership of %s(X) among %s() of ' \
-                         'creds[%r]' % (ln, rn, rkey)
-        elif isinstance(e, ast.Compare) and isinstance(e.ops[0], ast.NotIn):
-            detail = 'membership test is negated'
-        elif isinstance(e, ast.Call) and U(e.func) == 'any' and len(
-                e.args) == 1 and isinstance(e.args[0], ast.GeneratorExp):
-            g0 = e.args[0]
-            g = g0.generators[0]
-            c = g0.elt
-            if isinstance(c, ast.Compare) and isinstance(c.ops[0], ast.Eq):
-                a, b = c.left, c.comparators[0]
+        e = p.outcome.expr
+        if not is_const(e):
+            raise AnalysisError('role check result not reduced to its truth: '
+                                + U(e))
+        verdict = bool(e.value)
+        reasons = []          # legitimate reasons to deny
+        match = None          # the positive match condition
+        unknown = []
+        keys = set()
+        guard_keys = set()
+        scanned = None
+        for c in p.conds:
+            ce = c.expr
+            if c.kind == 'exc':
+                if 'KeyError' in str(ce.value):
+                    reasons.append('substitution failed')
+                else:
+                    unknown.append(c)
+                continue
+            if c.kind == 'loop':
+                key, how = roles_of(t, ce, creds_p)
+                if key is None:
+                    unknown.append(c)
+                    continue
+                keys.add((key, how))
+                scanned = ce
+                if not c.pol:
+                    reasons.append('no roles')
+                continue
+            # presence of the role list
+            if isinstance(ce, ast.Compare) and len(ce.ops) == 1 and \
+                    isinstance(ce.ops[0], ast.In) and is_const(ce.left) and \
+                    U(ce.comparators[0]) == creds_p:
+                guard_keys.add(ce.left.value)
+                if not c.pol:
+                    reasons.append('no role list')
+                continue
+            key, how = roles_of(t, ce, creds_p)
+            if key is not None:
+                # truthiness of the role list itself
+                keys.add((key, how))
+                if not c.pol:
+                    reasons.append('no roles')
+                continue
+            if isinstance(ce, ast.Compare) and len(ce.ops) == 1 and \
+                    isinstance(ce.ops[0], ast.Eq):
+                a, b = ce.left, ce.comparators[0]
+                hit = None
                 for x, y in ((a, b), (b, a)):
-                    xn, xs = norm_of(x)
-                    yn, ys = norm_of(y)
-                    if U(xs) == U(g.target) and substituted_match(
-                            t, ys, target_p):
-                        rkey, rhow = roles_source(g.iter, creds_p)
-                        if xn and xn == yn and rkey is not None:
-                            ok = True
-                            key = (rkey, rhow)
-                            detail = 'any(%s(role) == %s(X))' % (xn, yn)
-                        elif xn != yn:
-                            detail = 'different normalisers on the two sides'
-        ctx.ob('C04.MEMBER', ok, where, f.qual, 'result ' + U(e), detail)
-        if ok and key[0] != 'roles':
-            ctx.ob('C04.MEMBER', False, where, f.qual, 'role list key',
-                   'the roles are read from creds[%r], not creds[\'roles\']'
-                   % key[0])
-        if ok and key[1] == 'subscript':
-            # presence of the same key must be established on this path
-            guard = False
-            for c in p.conds:
-                ce = c.expr
-                if c.kind == 'test' and c.pol and isinstance(
-                        ce, ast.Compare) and isinstance(
-                            ce.ops[0], ast.In) and is_const(
-                                ce.left, key[0]) and U(
-                                    ce.comparators[0]) == creds_p:
-                    guard = True
-            ctx.ob('C04.ELSE-FALSE', guard, where, f.qual,
-                   'presence guard for creds[%r]' % key[0],
-                   'the key subscripted is the key tested for presence'
-                   if guard else 'creds[%r] is read without a presence test '
-                   'of that key: credentials without a role list raise '
-                   'instead of denying' % key[0])
+                    xn, xsrc = norm_of(t.expand(x))
+                    src = elem_source(t, xsrc)
+                    if src is None:
+                        continue
+                    key, how = roles_of(t, src, creds_p)
+                    yn, y_is_x = is_x(y)
+                    if key is not None and y_is_x:
+                        hit = (xn, yn, key, how)
+                if hit is not None:
+                    xn, yn, key, how = hit
+                    keys.add((key, how))
+                    if xn is None or yn is None or xn != yn:
+                        once('C04.MEMBER', False, where, 'compare ' + U(ce),
+                             'case is not normalised on %s' % (
+                                 'either side' if xn is None and yn is None
+                                 else 'the role side' if xn is None else
+                                 'the left side' if yn is None else
+                                 'both sides alike (%s vs %s)' % (xn, yn)))
+                    if c.pol:
+                        match = c
+                    else:
+                        reasons.append('role differs')
+                    continue
+            unknown.append(c)
+        for c in unknown:
+            once('C04.MEMBER', False, where, 'condition ' + c.text()[:80],
+                 'the decision of role:X depends on a condition that is '
+                 'neither the presence of the role list, nor its scan, nor '
+                 'the case-normalised equality of a held role with '
+                 '`self.match %% target` (verdict %s on this path)' % verdict)
+        if unknown:
+            continue
+        for key, how in sorted(keys):
+            if key != 'roles':
+                once('C04.MEMBER', False, where, 'role list key',
+                     'the roles are read from creds[%r], not creds[\'roles\']'
+                     % key)
+            if how == 'subscript':
+                guard = key in guard_keys
+                once('C04.ELSE-FALSE', guard, where,
+                     'presence guard for creds[%r]' % key,
+                     'the key subscripted is the key tested for presence'
+                     if guard else 'creds[%r] is read without a presence test '
+                     'of that key: credentials without a role list raise '
+                     'instead of denying' % key)
+        if 'substitution failed' in reasons:
+            n_subst += 1
+            once('C04.SUBST', not verdict, where,
+                 'missing target key -> %s' % verdict,
+                 'a %(key)s placeholder missing from the target denies'
+                 if not verdict else 'a missing target key does not deny')
+            continue
+        if verdict:
+            n_member += 1
+            ok = match is not None and not reasons
+            once('C04.MEMBER' if match is None and not reasons
+                 else 'C04.ELSE-FALSE', ok,
+                 where, '%s -> True' % p.cond_text()[:160],
+                 'accepts on a case-normalised match of a held role' if ok
+                 else 'the role check accepts without a held role equal to X '
+                 '(path: %s)' % p.cond_text()[:200])
+        else:
+            n_false += 1
+            ok = bool(reasons)
+            detail = 'denies (%s)' % ', '.join(reasons)
+            if ok and reasons == ['role differs']:
+                done = any(ev.kind == 'loopdone' for ev in p.events)
+                if not done:
+                    ok = False
+                    detail = 'a held role different from X ends the scan ' \
+                        'with a denial: later roles are never compared'
+            if not ok and not reasons:
+                detail = 'the role check denies although a held role ' \
+                    'equals X (path: %s)' % p.cond_text()[:200] if match \
+                    else 'the role check denies for no reason related to ' \
+                    'the roles held (path: %s)' % p.cond_text()[:200]
+            once('C04.ELSE-FALSE', ok, where,
+                 '%s -> False' % p.cond_text()[:160], detail)
     ctx.count(len(t.paths))
-    # the substitution must be guarded at all
-    scope = [f] + [prog.functions[h] for h in helpers
-                   if h in prog.functions]
-    subst_in_try = any(
-        isinstance(n, ast.Try) and any(
-            isinstance(x, ast.BinOp) and isinstance(x.op, ast.Mod)
-            and U(x.left) == 'self.match' for b in n.body
-            for x in ast.walk(b)) for g in scope for n in ast.walk(g.node))
-    ctx.ob('C04.SUBST', subst_in_try, W, f.qual, 'self.match % target',
-           'the placeholder substitution is guarded by a handler'
-           if subst_in_try else 'the placeholder substitution is not '
-           'guarded: a missing target key raises instead of denying')
-    ctx.floor('C04.MEMBER', n_member, 1, 'membership results')
-    ctx.floor('C04.SUBST', n_subst, 1, 'substitution handlers')
+    if n_subst == 0:
+        ctx.ob('C04.SUBST', False, W, f.qual, 'self.match % target',
+               'the placeholder substitution is not guarded by a KeyError '
+               'handler that denies: a missing target key raises instead of '
+               'denying')
+    if n_member == 0 and not ctx.findings:
+        ctx.ob('C04.MEMBER', False, W, f.qual, 'accepting paths',
+               'no path of the role check accepts: a held role never passes')
